@@ -5,7 +5,6 @@ package c05
 
 import (
 	"fmt"
-	"math"
 	"math/big"
 	"strings"
 
@@ -21,21 +20,39 @@ func init() {
 		Level: "exploration",
 		Rule: "every operator x every operand tuple over the boundary grid (see bound_completed); operands are built in Go " +
 			"(Fixnum / *Bignum / *Ratio / floats) and bound to variables, the operation is evaluated through ReadString+Eval, " +
-			"the result is read by type switch and compared with math/big, the operand variables are re-read; a case is " +
-			"non-trivial when at least one operand or the exact result lies outside the fixnum range or is a ratio or a float",
+			"the result is read by type switch and compared with math/big (the bitwise, boole and byte operations with And / Or / " +
+			"Xor / Not / Rsh of big.Int, which work on the infinite two's complement of a negative integer), the operand variables " +
+			"are re-read; a result is canonical when it is a Fixnum if it fits one, a *Bignum otherwise, a *Ratio in lowest terms " +
+			"only when the denominator is not 1 (a signed-byte / unsigned-byte object is not canonical); a case is " +
+			"non-trivial when at least one operand or the exact result lies outside the fixnum range or is a ratio or a float, " +
+			"every byte-operation case and every call without arguments is non-trivial",
 		Assumptions: []string{
 			"math/big is the oracle (trusted)",
-			"float arithmetic is outside the statement; floats appear only as comparison operands",
-			"mod/rem/gcd/lcm/log*/ash/isqrt are exercised on integers only (their CL domain)",
+			"float arithmetic is outside the statement; floats appear only as comparison operands (binary and n-ary)",
+			"mod/rem/gcd/lcm/log*/boole/ash/isqrt/ldb/dpb/mask-field/deposit-field are exercised on integers only (their CL domain)",
+			"a call without arguments of an operator that has no identity (- / max min and the comparisons) is only required not to fault",
+			"byte specifiers are built with (byte size position) from non-negative fixnums; setf of ldb / mask-field is not exercised",
 		},
 		Enumerate: enumerate,
 		Exec:      exec,
-		Required:  []string{"big-operand", "ratio-operand", "overflow-boundary", "float-compare"},
+		Selftest:  selftest,
+		Required: []string{"big-operand", "ratio-operand", "overflow-boundary", "float-compare",
+			"bit-op", "bit-negative-bignum", "bit-sign-extension", "boole", "byte-spec", "byte-beyond-width-of-negative",
+			"byte-beyond-first-word", "nary-no-argument", "nary-one-argument", "nary-mixed-representations", "nary-float-compare"},
 		Bound: func(tier string) string {
+			n := len(intGrid(tier))
+			bits := fmt.Sprintf("; bitwise: all pairs of the %d integers for logandc1 logandc2 logeqv lognand lognor logorc1 logorc2 logtest and "+
+				"the 16 boole operations, all %d integers for logcount integer-length, logbitp index grid x integers; "+
+				"byte operations: ldb ldb-test mask-field over %d sizes x %d positions x %d integers, dpb deposit-field additionally x %d newbytes, "+
+				"byte-size / byte-position of every (byte size position); n-ary: 18 operators (logand logior logxor logeqv gcd lcm + * - / max min "+
+				"= /= < <= > >=) with no argument, with one argument (every grid integer and ratio), all triples over %d integers (bitwise, gcd, lcm) "+
+				"resp. %d rationals (the others), comparisons over all triples with at least one float over %d alphabets of 9 "+
+				"(n-1, n, n+1 and the double / single / long floats equal and adjacent to n)",
+				n, n, len(byteSizes), len(bytePositions), n, len(newbyteGrid()), len(naryIntGrid(tier)), len(naryRatGrid(tier)), len(naryFloatAlphabets(tier)))
 			if tier == engine.Thorough {
-				return fmt.Sprintf("all pairs over %d integers + %d ratios for 24 binary operators, all unary, expt exponent -3..70, ash shift -130..130, all triples over an 11-element subgrid for n-ary + * - < = <= max min, integer (grid + 12 precision-edge integers of the single and double formats) x adjacent single/double/long floats for 6 comparisons", len(intGrid(engine.Thorough)), len(ratGrid()))
+				return fmt.Sprintf("all pairs over %d integers + %d ratios for 24 binary operators, all unary, expt exponent -3..70, ash shift -130..130, all triples over an 11-element subgrid for n-ary + * - < = <= max min, integer (grid + 12 precision-edge integers of the single and double formats) x adjacent single/double/long floats for 6 comparisons", len(intGrid(engine.Thorough)), len(ratGrid())) + bits
 			}
-			return fmt.Sprintf("all pairs over %d integers + %d ratios for 24 binary operators, all unary, expt exponent 0..20, ash shift on a 17-value grid, triples over a 6-element subgrid, integer (grid + 12 precision-edge integers) x adjacent single/double/long floats for 6 comparisons", len(intGrid(engine.Quick)), len(ratGrid()))
+			return fmt.Sprintf("all pairs over %d integers + %d ratios for 24 binary operators, all unary, expt exponent 0..20, ash shift on a 17-value grid, triples over a 6-element subgrid, integer (grid + 12 precision-edge integers) x adjacent single/double/long floats for 6 comparisons", len(intGrid(engine.Quick)), len(ratGrid())) + bits
 		},
 	})
 }
@@ -244,6 +261,8 @@ func enumerate(tier string, emit func(string)) {
 			}
 		}
 	}
+	// sixth round: the other bitwise functions, boole, the byte operations, n-ary forms (bits.go)
+	enumerateBits(tier, "", emit)
 }
 
 func parseRat(s string) *big.Rat {
@@ -417,6 +436,9 @@ func expected2(op string, x, y *big.Rat) expect {
 		}
 		return expect{vals: []*big.Rat{ri(new(big.Int).Rsh(x.Num(), uint(-s)))}} // Rsh on big.Int is arithmetic (floor)
 	}
+	if isBitBin(op) {
+		return expectedBit2(op, x, y)
+	}
 	return expect{skip: true}
 }
 
@@ -480,6 +502,11 @@ func expected1(op string, x *big.Rat) (expect, string) {
 		return expect{bval: boolp(x.Num().Bit(0) == 1)}, "(oddp x)"
 	case "signum":
 		return expect{vals: []*big.Rat{big.NewRat(int64(x.Sign()), 1)}}, "(signum x)"
+	case "logcount", "integer-length":
+		if !x.IsInt() {
+			return expect{skip: true}, ""
+		}
+		return expect{vals: []*big.Rat{ri(bitRef1(op, x.Num(), mutNone))}}, "(" + op + " x)"
 	}
 	return expect{skip: true}, ""
 }
@@ -490,6 +517,9 @@ func srcFor2(op string) string {
 		return "(multiple-value-list (" + op + " x y))"
 	case "incf", "decf":
 		return "(let ((v x)) (" + op + " v y) v)"
+	}
+	if strings.HasPrefix(op, "boole-") {
+		return "(boole " + op + " x y)"
 	}
 	return "(" + op + " x y)"
 }
@@ -521,40 +551,9 @@ func exec(spec string) (res engine.Result) {
 		src = srcFor2(op)
 		sigArgs = class(x) + "," + class(y)
 	case "t":
-		x, y, z := parseRat(parts[2]), parseRat(parts[3]), parseRat(parts[4])
-		operands = []*big.Rat{x, y, z}
-		src = "(" + op + " x y z)"
-		sigArgs = class(x) + "," + class(y) + "," + class(z)
-		switch op {
-		case "+":
-			ex = expect{vals: []*big.Rat{new(big.Rat).Add(new(big.Rat).Add(x, y), z)}}
-		case "*":
-			ex = expect{vals: []*big.Rat{new(big.Rat).Mul(new(big.Rat).Mul(x, y), z)}}
-		case "-":
-			ex = expect{vals: []*big.Rat{new(big.Rat).Sub(new(big.Rat).Sub(x, y), z)}}
-		case "<":
-			ex = expect{bval: boolp(x.Cmp(y) < 0 && y.Cmp(z) < 0)}
-		case "<=":
-			ex = expect{bval: boolp(x.Cmp(y) <= 0 && y.Cmp(z) <= 0)}
-		case "=":
-			ex = expect{bval: boolp(x.Cmp(y) == 0 && y.Cmp(z) == 0)}
-		case "max":
-			m := x
-			for _, v := range []*big.Rat{y, z} {
-				if m.Cmp(v) < 0 {
-					m = v
-				}
-			}
-			ex = expect{vals: []*big.Rat{m}}
-		case "min":
-			m := x
-			for _, v := range []*big.Rat{y, z} {
-				if m.Cmp(v) > 0 {
-					m = v
-				}
-			}
-			ex = expect{vals: []*big.Rat{m}}
-		}
+		return execNary(parts)
+	case "y":
+		return execByte(parts)
 	case "f":
 		return execFloat(parts)
 	default:
@@ -578,6 +577,9 @@ func exec(spec string) (res engine.Result) {
 			res.Hit("ratio-operand")
 			res.Nontrivial = true
 		}
+	}
+	if parts[0] == "b" && isBitBin(op) || parts[0] == "u" && (op == "logcount" || op == "integer-length") {
+		bitCounters(&res, op, operands)
 	}
 	want := "bool"
 	if ex.err {
@@ -676,56 +678,10 @@ func showExpect(ex expect) string {
 // equal to / just below / just above integer `near`.
 func execFloat(parts []string) (res engine.Result) {
 	op, a, near, kind, adj, order := parts[1], parseRat(parts[2]), parseRat(parts[3]), parts[4], parts[5], parts[6]
-	var fobj slip.Object
-	var fval *big.Rat
-	nf := new(big.Float).SetPrec(256).SetRat(near)
-	switch kind {
-	case "d":
-		f, _ := nf.Float64()
-		if math.IsInf(f, 0) {
-			res.Outcome = "skip" // no double float near this integer: an infinity is not a number to compare with
-			return
-		}
-		switch adj {
-		case "lo":
-			f = math.Nextafter(f, math.Inf(-1))
-		case "hi":
-			f = math.Nextafter(f, math.Inf(1))
-		}
-		if math.IsInf(f, 0) {
-			res.Outcome = "skip"
-			return
-		}
-		fobj = slip.DoubleFloat(f)
-		fval = new(big.Rat)
-		fval.SetFloat64(f)
-	case "f":
-		f64, _ := nf.Float64()
-		f := float32(f64)
-		if math.IsInf(float64(f), 0) {
-			res.Outcome = "skip"
-			return
-		}
-		switch adj {
-		case "lo":
-			f = math.Nextafter32(f, float32(math.Inf(-1)))
-		case "hi":
-			f = math.Nextafter32(f, float32(math.Inf(1)))
-		}
-		fobj = slip.SingleFloat(f)
-		fval = new(big.Rat)
-		fval.SetFloat64(float64(f))
-	case "l":
-		bf := new(big.Float).SetPrec(300).SetRat(near)
-		eps := new(big.Float).SetPrec(300).SetMantExp(big.NewFloat(1), -40)
-		switch adj {
-		case "lo":
-			bf.Sub(bf, eps)
-		case "hi":
-			bf.Add(bf, eps)
-		}
-		fobj = (*slip.LongFloat)(bf)
-		fval, _ = new(big.Float).Copy(bf).Rat(nil)
+	fobj, fval, ok := floatNear(kind, adj, near)
+	if !ok {
+		res.Outcome = "skip" // no finite float of this format near this integer
+		return
 	}
 	scope := slip.NewScope()
 	aobj := toObj(a)
